@@ -21,8 +21,10 @@ import time
 import traceback
 
 VERIF_DIR = os.path.dirname(os.path.dirname(os.path.abspath(__file__)))
-EVIDENCE_DIR = os.path.join(VERIF_DIR, 'evidence')
-REPLAY_DIR = os.path.join(VERIF_DIR, 'replays')
+# self-test sub-runs against mutated copies write their evidence and replays elsewhere (VERIF_OUT)
+_OUT = os.environ.get('VERIF_OUT') or VERIF_DIR
+EVIDENCE_DIR = os.path.join(_OUT, 'evidence')
+REPLAY_DIR = os.path.join(_OUT, 'replays')
 DEFAULT_REPO = '/repo'
 
 EXIT_OK = 0
